@@ -45,7 +45,8 @@
 //! are planned as a symmetric hash join without pruning, which streams its matches — generated as
 //! `ShjNoRange`, liveness demanded for the INNER matches).
 //!
-//! Genuine defect found (open in known_findings.json, signature
+//! Genuine defect found (now FIXED in /repo; nothing is excluded any more and the case is a plain
+//! regression; known_findings.json signature
 //! `filter-coalescer-holds-rows:later-input-never-passes`, case regressions/C50/c50/…, proposed
 //! repair fixes/C50-filter-no-coalescing-over-unbounded-input.diff): `FilterExec` keeps rows that
 //! passed the predicate in its output coalescer until `batch_size` of them have accumulated, also
@@ -86,7 +87,6 @@ use vf_kit::engine::*;
 
 pub struct C50;
 
-pub const SIG_FILTER_COALESCER: &str = "filter-coalescer-holds-rows:later-input-never-passes";
 const B: u64 = 2_000;
 const TAIL_GAP: i64 = 10;
 /// rows per tail batch
@@ -758,16 +758,6 @@ impl Property for C50 {
             "window shapes: the tail continues the prefix's window partitions (same keys) so that all frames close; the reference is computed over the prefix plus the first 6 tail batches of every partition".into(),
             "bound D = max(2000, 4 x batch_size x target_partitions / 4) tail batches per source partition, counted in source batches; a 150 s per-case timeout only produces 'inconclusive'".into(),
         ]
-    }
-    fn known_signature(&self, case: &Case) -> Option<String> {
-        // finding "filter-coalescer-holds-rows": FilterExec keeps rows that pass the predicate in its
-        // output coalescer until batch_size of them have accumulated; when the rest of an unbounded
-        // input never passes (UNION ALL branch `u WHERE v <= c2` with c2 < 0: tail values are 0..6)
-        // the buffered prefix rows are never delivered
-        match case.shape {
-            QShape::UnionAll if union_c2(case.c) < 0 => Some(SIG_FILTER_COALESCER.to_string()),
-            _ => None,
-        }
     }
     fn run(&self, case: &Case) -> CaseResult {
         let rt = match tokio::runtime::Builder::new_current_thread().enable_all().build() {
